@@ -111,6 +111,17 @@ func c19Nodes(p []string) string {
 	return strings.Join(p, ",")
 }
 
+func c19Short(p []string) string {
+	var o []string
+	for _, h := range p {
+		if len(h) > 8 {
+			h = h[:8]
+		}
+		o = append(o, h)
+	}
+	return "[" + strings.Join(o, " ") + "]"
+}
+
 func eqStrs(a, b []string) bool {
 	if len(a) != len(b) {
 		return false
@@ -160,7 +171,7 @@ func runC19(ops []string) CaseResult {
 			fail(i, "path has leaf index %d, want %d", p.LeafIndex, want)
 		}
 		if sp := c19SpecPath(lv, want); !eqStrs(p.Nodes, sp) {
-			fail(i, "path nodes of index %d (n=%d) differ from the sibling list of the levels: got %v want %v", want, len(leaves), p.Nodes, sp)
+			fail(i, "path nodes of index %d (n=%d) differ from the sibling list of the levels: got %s want %s", want, len(leaves), c19Short(p.Nodes), c19Short(sp))
 		}
 		if !c19Fold(leaves[want], p.Nodes, p.LeafIndex, root) {
 			fail(i, "path of index %d (n=%d) does not fold to the root", want, len(leaves))
@@ -487,9 +498,14 @@ func exhC19(tier string, emit func([]string)) {
 	}
 	// every n exactly once, in a scattered order (7919 is coprime to both bounds) so that the contiguous chunks the
 	// model run is split into carry similar work
-	for k := 0; k < maxN; k++ {
-		n := 1 + (k*7919)%maxN
+	// (the smallest trees first, so that the first failure reported is a small one)
+	for n := 1; n <= 40; n++ {
 		emit(c19Case(rand.New(rand.NewSource(int64(n))), n, "e", 0, tier))
+	}
+	for k := 0; k < maxN; k++ {
+		if n := 1 + (k*7919)%maxN; n > 40 {
+			emit(c19Case(rand.New(rand.NewSource(int64(n))), n, "e", 0, tier))
+		}
 	}
 }
 
